@@ -49,6 +49,12 @@ structure DSt where
   tables : List (Nat × List Nat × List Nat) := []                   -- instances whose public tables were overridden
   table : Array (Key × Val) := #[]
   texts : Array Text := #[]       -- `env T <hex>` defines text number `texts.size`; later tokens `@k` refer to it
+  spec : String := "a:int"                                          -- the current schema (classes are cached by spec)
+  cochaps : List ((Nat × String) × String) := []                    -- (instance, schema) -> registered co-chaperone
+  misfolds : List (Nat × String) := []                              -- instance -> `on_misfold`
+  preTab : List ((String × Text) × Res Text) := []                  -- `env H`: what a co-chaperone does on a text
+  mfTab : List (String × (Bool × Res Unit)) := []                   -- `env G`: truthiness of a callback, what it does
+  excNames : Array String := #[]                                    -- class names of the exceptions callbacks raise
 
 /-- the addressed instance (a default-configured one if none was created yet) -/
 def DSt.inst (st : DSt) : Inst := (st.world[st.cur]?).getD ⟨Cfg.new [], Stats.zero⟩
@@ -106,6 +112,57 @@ def mkEnv (st : DSt) (tb : Array (Key × Val)) : Env Nat Nat Nat where
   sub i t := match lookup tb (.U i t) with | some (_, .text r) => r | _ => .raise unrecorded
   validate d := match lookup tb (.V d) with | some (_, .s r) => r | _ => .raise unrecorded
   coerce d := modelledCoerce st d     -- the model of the helper over the primitives the harness evaluated
+
+/-- the user callbacks the addressed instance reaches for the current schema -/
+def mkHooks (st : DSt) : Hooks Nat Nat where
+  pre :=
+    match st.cochaps.find? (fun e => e.1 == (st.cur, st.spec)) with
+    | some (_, fn) => some fun t =>
+      match st.preTab.find? (fun e => e.1 == (fn, t)) with | some (_, r) => r | none => .raise unrecorded
+    | none => none
+  onMisfold :=
+    match st.misfolds.find? (fun e => e.1 == st.cur) with
+    | some (_, fn) =>
+      match st.mfTab.find? (fun e => e.1 == fn) with
+      | some (_, (true, r)) => some fun _ => r
+      | some (_, (false, _)) => none            -- a falsy callable: `if self.on_misfold:` skips it
+      | none => some fun _ => .raise unrecorded
+    | none => none
+
+def showExc (st : DSt) : Exc → String
+  | .other k => if k ≥ 1000 then (st.excNames[k - 1000]?).getD "?" else "?"
+  | .jsonDecode => "JSONDecodeError"
+  | .validation => "ValidationError"
+
+def showHook (raw : Text) : HookCall Nat Nat → String
+  | .pre _ (.ok _) => "p:ok"
+  | .pre _ (.raise _) => "p:raise"
+  | .misfold rep r =>
+    let sid := match rep.struct with | some s => toString s | none => "none"
+    "m:" ++ "/".intercalate [showBool rep.valid, sid, showBool rep.err.isSome, showBool (rep.raw == raw),
+      showRat rep.confidence,
+      "+".intercalate (rep.attempts.map fun a => (match a.strategy with
+        | .strict => "s" | .extraction => "e" | .lenient => "l" | .repair => "r") ++ showBool a.success)]
+    ++ (match r with | .ok _ => ":ok" | .raise _ => ":raise")
+
+def showHooks (raw : Text) (hs : List (HookCall Nat Nat)) : String := "hooks=" ++ showList (hs.map (showHook raw))
+
+def hookTags (hs : List (HookCall Nat Nat)) : List String :=
+  hs.map fun h => match h with
+    | .pre _ (.ok _) => "hook:pre-ok" | .pre _ (.raise _) => "hook:pre-raise"
+    | .misfold _ (.ok _) => "hook:misfold-ok" | .misfold _ (.raise _) => "hook:misfold-raise"
+
+def setCochap (st : DSt) (fn : Option String) : DSt :=
+  let rest := st.cochaps.filter (fun e => e.1 != (st.cur, st.spec))
+  match fn with
+  | some f => { st with cochaps := ((st.cur, st.spec), f) :: rest }
+  | none => { st with cochaps := rest }
+
+def setMisfold (st : DSt) (fn : Option String) : DSt :=
+  let rest := st.misfolds.filter (fun e => e.1 != st.cur)
+  match fn with
+  | some f => { st with misfolds := (st.cur, f) :: rest }
+  | none => { st with misfolds := rest }
 
 def keyOf : Call Nat Nat Nat → Key
   | .loads t _ => .L t
@@ -203,10 +260,35 @@ def showStats (st : Stats) : String :=
 
 def step (st : DSt) (toks : List String) : DSt × String :=
   match toks with
-  | "schema" :: _ =>
+  | "schema" :: rest =>
     -- a new schema: `model_validate`, the field table and the coercions are those of the new class; the recorded
     -- environment starts afresh (the Chaperone, its configuration and its counters stay)
-    ({ st with table := #[], texts := #[], fieldsA := [], dicts := #[], ofd := #[], prims := #[] }, "ok")
+    ({ st with table := #[], texts := #[], fieldsA := [], dicts := #[], ofd := #[], prims := #[], preTab := [],
+               spec := rest.headD "" }, "ok")
+  | ["env", "H", fn, t, "ok", t'] =>
+    ({ st with preTab := ((fn, textOf st.texts t), .ok (textOf st.texts t')) :: st.preTab }, "ok")
+  | ["env", "H", fn, t, "raise", cls] =>
+    ({ st with preTab := ((fn, textOf st.texts t), .raise (.other (1000 + st.excNames.size))) :: st.preTab,
+               excNames := st.excNames.push cls }, "ok")
+  | ["env", "G", fn, truthy, "ok"] =>
+    ({ st with mfTab := (fn, (boolOf truthy, .ok ())) :: st.mfTab.filter (fun e => e.1 != fn) }, "ok")
+  | ["env", "G", fn, truthy, "raise", cls] =>
+    ({ st with mfTab := (fn, (boolOf truthy, .raise (.other (1000 + st.excNames.size)))) :: st.mfTab.filter (fun e => e.1 != fn),
+               excNames := st.excNames.push cls }, "ok")
+  | ["cochap", how] =>
+    let st1 := if st.world.isEmpty then { st with world := [⟨Cfg.new [], Stats.zero⟩], cur := 0 } else st
+    match how.splitOn ":" with
+    | ["reg", fn] => (setCochap st1 (some fn), "ok")
+    | ["set", fn] => (setCochap st1 (some fn), "ok")
+    | ["del"] => (setCochap st1 none, "ok")
+    | _ => (st, "bad-op")
+  | ["misfold", fn] =>
+    let st1 := if st.world.isEmpty then { st with world := [⟨Cfg.new [], Stats.zero⟩], cur := 0 } else st
+    (setMisfold st1 (if fn = "-" then none else some fn), "ok")
+  | ["newh", c, co, mf] =>
+    let st1 := { st with world := st.world.create (stratsOf c), cur := st.world.length }
+    let st2 := if co = "-" then st1 else setCochap st1 (some co)
+    (if mf = "-" then st2 else setMisfold st2 (some mf), "ok")
   | "env" :: "A" :: fs =>
     ({ st with fieldsA := fs.map fun f => match f.splitOn ":" with | [k, a] => (natD k, annOf a) | _ => (0, .other) }, "ok")
   | ["env", "D", j, "list"] => ({ st with dicts := st.dicts.push (natD j, none) }, "ok")
@@ -258,27 +340,37 @@ def step (st : DSt) (toks : List String) : DSt × String :=
     | none => (st, "bad-op")
   | ["fold", raw, call] =>
     let rawT := decodeCps raw
-    match fold (mkEnv st st.table) st.cfg st.stats rawT (stratsOf call) with
-    | ⟨tr, .ok (stats', r)⟩ =>
+    let out := foldH (mkEnv st st.table) (mkHooks st) st.cfg st.stats rawT (stratsOf call)
+    match out.res with
+    | .ok r =>
       let sid := match r.struct with | some s => toString s | none => "none"
-      ({ st.withStats stats' with last := some r },
-        joinSp [showBool r.valid, sid, showBool r.err.isSome, showBool (r.raw == rawT), showCalls st st.table tr]
-        ++ " ## " ++ joinSp ((if r.valid then "hit" else "fail") :: convTags tr))
-    | ⟨tr, .raise _⟩ => (st, joinSp ["raise", showCalls st st.table tr])
+      ({ st.withStats out.stats with last := some r },
+        joinSp [showBool r.valid, sid, showBool r.err.isSome, showBool (r.raw == rawT), showHooks rawT out.hooks,
+          showCalls st st.table out.trace]
+        ++ " ## " ++ joinSp ((if r.valid then "hit" else "fail") :: convTags out.trace ++ hookTags out.hooks))
+    | .raise e =>
+      (st.withStats out.stats, joinSp ["raise:" ++ showExc st e, showHooks rawT out.hooks, showCalls st st.table out.trace]
+        ++ " ## " ++ joinSp (hookTags out.hooks))
   | ["foldx", raw, call] =>
     let rawT := decodeCps raw
-    match foldX (mkEnv st st.table) st.cfg st.stats rawT (stratsOf call) with
-    | ⟨tr, .ok (stats', r)⟩ =>
+    let out := foldXH (mkEnv st st.table) (mkHooks st) st.cfg st.stats rawT (stratsOf call)
+    match out.res with
+    | .ok r =>
       let sid := match r.struct with | some s => toString s | none => "none"
       let tags := (if r.valid then "hitx:" ++ showOptStrat r.strategyUsed else "failx") ::
-        (r.attempts.filter (fun a => !a.success)).map (fun a => errTag a.err) ++ convTags tr
-      (st.withStats stats',
+        (r.attempts.filter (fun a => !a.success)).map (fun a => errTag a.err) ++ convTags out.trace ++ hookTags out.hooks
+      (st.withStats out.stats,
         joinSp [showBool r.valid, sid, showBool r.err.isSome, showBool (r.raw == rawT), showOptStrat r.strategyUsed,
           showRat r.confidence, showList (r.coercions.map showNote), showList (r.attempts.map showAtt),
-          showCalls st st.table tr]
+          showHooks rawT out.hooks, showCalls st st.table out.trace]
         ++ " ## " ++ joinSp tags)
-    | ⟨tr, .raise _⟩ => (st, joinSp ["raise", showCalls st st.table tr])
+    | .raise e =>
+      (st.withStats out.stats, joinSp ["raise:" ++ showExc st e, showHooks rawT out.hooks, showCalls st st.table out.trace]
+        ++ " ## " ++ joinSp (hookTags out.hooks))
   | ["heal", n, decay, outs] =>
+    if st.cochaps.any (fun e => e.1 == (st.cur, st.spec)) || st.misfolds.any (fun e => e.1 == st.cur) then
+      (st, "skipped-callbacks")     -- the healing loop is modelled over an instance without callbacks
+    else
     let texts := (outs.splitOn ",").map decodeCps
     let gen : Nat → Text := fun k => (texts[k]?).getD (texts.getLast?.getD [])
     match heal (mkEnv st st.table) st.cfg st.stats (ratOf decay) (natD n) gen with
